@@ -17,6 +17,7 @@ RULE = ("generated primitives (interval, circle, sphere, parallelogram in both v
         "constant and parameter dependent with k <= 5 rows; normals queried at the library's own random and grid boundary "
         "samples; non-trivial = at least 10 rows passed the step test oracle; distinct = (expression shape, k class, "
         "parameter dependence, sampler kind)")
+RULE += '; a fifth of the cases at length scales 0.01 / 0.05 / 30 / 300; normals re-queried with the columns stored differently (another variable / the parameters in front of or behind the coordinates)'
 REQUIRED_REACH = ["IntervalSingleBoundaryPoint.normal", "CircleBoundary.normal", "SphereBoundary.normal", "ParallelogramBoundary.normal", "TriangleBoundary.normal",
                   "IntervalBoundary.normal", "ShapelyBoundary.normal", "UnionBoundaryDomain.normal", "CutBoundaryDomain.normal",
                   "IntersectionBoundaryDomain.normal", "TrimeshBoundary.normal"]
